@@ -32,10 +32,10 @@ def plain(name, pkg, run, race=False, **kw):
 PROPS = {}
 
 
-def crash(name, pkg, family, quick, thorough):
+def crash(name, pkg, family, quick, thorough, mode="kill"):
     import crashenum
     return {"name": name, "pkg": pkg, "kind": "python", "func": crashenum.run_crashenum, "family": family,
-            "scenarios": {"quick": quick, "thorough": thorough}}
+            "scenarios": {"quick": quick, "thorough": thorough}, "mode": mode}
 
 
 PROPS["C01"] = {
@@ -222,6 +222,7 @@ PROPS["C16"] = {
         rapid("store-model", "token", "TestVerif_C16_StoreModel", 800, 6000),
         rapid("racing-editors", "token", "TestVerif_C16_RacingEditors", 100, 800),
         crash("crash-points", "token", "token", 4, 50),
+        crash("fault-points", "token", "token", 4, 40, mode="fault"),
     ],
     "technique": "model-based stateful property testing (rapid) with a fresh-reader differential, racing conditional editors, crash-point enumeration with strace fault injection",
     "assumptions": ["process crashes at syscall boundaries only; the token writer does not fsync, durability across power loss is not claimed",
